@@ -45,14 +45,15 @@ def walk(ref_start0, cigar):
 
 
 def valid(cigar):
-    """SAM-valid shape used by the enumerator: H only outermost, S only next to H/ends, N interior with aligned-ish
-    neighbours and not adjacent to N, no two equal adjacent ops, at least one aligned base."""
+    """SAM-valid shape used by the enumerator: H only outermost, S only next to H/ends, N interior and not next to a clip,
+    at least one aligned base.  Equal adjacent operations (MM, II, NN, ...) are allowed: the SAM specification only
+    recommends merging them and CIGAR post-processing tools emit them."""
     n = len(cigar)
     ops = [o for o, _ in cigar]
     if not any(o in ALIGNED for o in ops):
         return False
     for i, o in enumerate(ops):
-        if i and ops[i - 1] == o:
+        if i and ops[i - 1] == o and o in (S, H):
             return False
         if o == H and i not in (0, n - 1):
             return False
@@ -64,7 +65,7 @@ def valid(cigar):
         if o == N:
             if i == 0 or i == n - 1:
                 return False
-            if ops[i - 1] in (N, S, H) or ops[i + 1] in (N, S, H):
+            if ops[i - 1] in (S, H) or ops[i + 1] in (S, H):
                 return False
     core = [o for o in ops if o not in (S, H)]
     if not core or core[0] == N or core[-1] == N:
